@@ -107,6 +107,10 @@ CORPUS = [
     # '_' + name taken by a function with arguments
     '(declare-const w (_ BitVec 8))(declare-fun _w ((_ BitVec 8)) (_ BitVec 8))'
     '(assert (= (_w w) w))(check-sat)',
+    # set-info in the middle of the script (incremental benchmarks)
+    '(set-logic QF_LIA)(set-info :source x)(declare-const x Int)'
+    '(assert (> (+ x 1) 2))(check-sat)(set-info :status unsat)'
+    '(assert (< (* x 2) 3))(check-sat)',
     # a top-level node with many children (binary reduction)
     '(declare-const z Int)(assert (and (> z 0) (> z 1) (> z 2) (> z 3) (> z 4)'
     ' (> z 5) (> z 6) (> z 7) (> z 8) (> z 9)))'
